@@ -433,21 +433,27 @@ func (tree *ObjectTree) toString(w io.Writer, padBuf *bytes.Buffer, index uint32
 	}
 
 	if curObj.opcode == pOpMethod {
-		kfmt.Fprintf(w, ", argCount: %d", uint8(tree.ArgAt(curObj, 1).value.(uint64)&0x7))
+		if argCount, ok := tree.methodArgCount(curObj); ok {
+			kfmt.Fprintf(w, ", argCount: %d", argCount)
+		}
 	}
 
 	kfmt.Fprintf(w, ", table: %d, index: %d, offset: 0x%x", curObj.tableHandle, curObj.index, curObj.amlOffset)
 	kfmt.Fprintf(w, "]")
 
-	if curObj.opcode == pOpIntMethodCall {
-		methodObj := tree.ObjectAt(curObj.value.(uint32))
-		argCount := uint8(tree.ArgAt(methodObj, 1).value.(uint64) & 0x7)
+	// The tree of a table that failed to parse may contain partially populated
+	// objects; only print the details that are actually there.
+	targetObj := tree.targetOf(curObj)
+	field, isField := curObj.value.(*fieldElement)
+
+	if curObj.opcode == pOpIntMethodCall && targetObj != nil {
+		methodObj := targetObj
+		argCount, _ := tree.methodArgCount(methodObj)
 		kfmt.Fprintf(w, " -> [call to \"%s\", argCount: %d, table: %d, index: %d, offset: 0x%x]", methodObj.name[:], argCount, methodObj.tableHandle, methodObj.index, methodObj.amlOffset)
-	} else if curObj.opcode == pOpIntResolvedNamePath {
-		resolvedObj := tree.ObjectAt(curObj.value.(uint32))
+	} else if curObj.opcode == pOpIntResolvedNamePath && targetObj != nil {
+		resolvedObj := targetObj
 		kfmt.Fprintf(w, " -> [resolved to \"%s\", table: %d, index: %d, offset: 0x%x]", nameOf(resolvedObj), resolvedObj.tableHandle, resolvedObj.index, resolvedObj.amlOffset)
-	} else if curObj.opcode == pOpIntNamedField {
-		field := curObj.value.(*fieldElement)
+	} else if curObj.opcode == pOpIntNamedField && isField && field != nil {
 		kfmt.Fprintf(w, " -> [field index: %d, offset(bytes): 0x%x, width(bits): 0x%x, accType: ", field.fieldIndex, field.offset, field.width)
 		switch field.accessType {
 		case 0x00:
@@ -518,10 +524,10 @@ func (tree *ObjectTree) toString(w io.Writer, padBuf *bytes.Buffer, index uint32
 		default:
 			kfmt.Fprintf(w, ", connection: index %d]", field.connectionIndex)
 		}
-	} else if curObj.opcode == pOpStringPrefix {
-		kfmt.Fprintf(w, " -> [string value: \"%s\"]", curObj.value.([]byte))
-	} else if curObj.opcode == pOpIntNamePath {
-		kfmt.Fprintf(w, " -> [namepath: \"%s\"]", curObj.value.([]byte))
+	} else if str, isStr := curObj.value.([]byte); isStr && curObj.opcode == pOpStringPrefix {
+		kfmt.Fprintf(w, " -> [string value: \"%s\"]", str)
+	} else if isStr && curObj.opcode == pOpIntNamePath {
+		kfmt.Fprintf(w, " -> [namepath: \"%s\"]", str)
 	} else if curObj.value != nil {
 		switch v := curObj.value.(type) {
 		case uint64:
@@ -576,6 +582,33 @@ func (tree *ObjectTree) toString(w io.Writer, padBuf *bytes.Buffer, index uint32
 	}
 
 	padBuf.Truncate(padLen)
+}
+
+// methodArgCount returns the number of arguments expected by the method
+// definition obj. The second return value is false if obj does not (yet)
+// contain a valid flags argument.
+func (tree *ObjectTree) methodArgCount(obj *Object) (uint8, bool) {
+	flagsObj := tree.ArgAt(obj, 1)
+	if flagsObj == nil {
+		return 0, false
+	}
+
+	flags, ok := flagsObj.value.(uint64)
+	if !ok {
+		return 0, false
+	}
+
+	return uint8(flags & 0x7), true
+}
+
+// targetOf returns the object referenced by a pOpIntMethodCall or
+// pOpIntResolvedNamePath object or nil if obj does not reference a live object.
+func (tree *ObjectTree) targetOf(obj *Object) *Object {
+	if targetIndex, ok := obj.value.(uint32); ok {
+		return tree.ObjectAt(targetIndex)
+	}
+
+	return nil
 }
 
 func hexToASCII(val uint32) byte {
